@@ -618,8 +618,11 @@ def run(model: RepoModel, rep, tier: str):
         else:
             rep.holds("C04.R8", key, FILE, dcfg.stmt[lf[0]].lineno, f"nothing is added to the result after the LOOP_FALSE node; popped by {consumers[0][0].name}")
 
-    from ..generic3 import check_enum_distinct
+    from ..generic3 import check_enum_distinct, check_repeated_fields
     check_enum_distinct(model, rep, "C04.R8", "config/constants.py", ["CONTROL_FLOW_KIND"])
+    rep.rule("C04.R10", "every part of a loop header reaches the GIR: a field of a control statement that the grammar lets repeat (the update expressions "
+                        "and initialisers of a C-style for) is read with the plural accessor", 8)
+    check_repeated_fields(model, rep, "C04.R10", only_handlers=("for_statement", "while_statement", "if_statement", "do_statement", "switch_statement", "try_statement"))
     # ------------------------------------------------------------------ R9 every clause of a control statement reaches the GIR
     from .. import generic2
     CONTROL_KEYS = ("if_stmt", "while_stmt", "dowhile_stmt", "for_stmt", "forin_stmt", "for_value_stmt", "try_stmt", "catch_clause", "switch_stmt",
